@@ -219,6 +219,21 @@ CLAIMS = {
             "deductive: polynomial-identity VCs from the real sign/verify code, sympy; z3 for ranges and codecs; bounded monitor"),
 }
 
+# round-7 additions (appended to the claim text)
+ADDED7 = {
+    "C02": "the BF3 body contracts (dir_to_binary: offsets advance by the STORED length; to_binary; from_binary(layout(f))=f) are discharged under this property too; bounded family with the encrypted configuration first",
+    "C04": "BEC2 fault enumeration (every header byte, prefixes, body bytes, suffixes, text prefixes; one block of each kind with every key selector, multi-block headers, a reader with one ECC key per selector); compared: session key, content, fields of every OPENED block (an unopened block is opaque: the header has no MAC)",
+    "C07": "the ECC block's key derivation (shared x as exactly 32 bytes) and the independent unwrap are obligations here too",
+    "C09": "decode chain of the ephemeral point: from_string hands the decoded coordinates unchanged to from_public_point, which validates against P-256 (callees stubbed, arguments recorded); crafted curve points written with a coordinate >= p",
+    "C10": "set_config's framing (shared with C06/C11) and a bounded end-to-end family: the component split by an independent framing reader and decoded, for every way a component can end",
+    "C11": "the identifier functions' contract (identifier or exactly their own Missing...NameError) discharged here too; anonymous configurations in the operation sequences",
+    "C12": "the users of the identifier (derive_comments_from_config, derive_auth_blocks_from_config) are obligations here too",
+    "C15": "a frame is accepted only if the stored 16 bits equal the CRC of the payload, for every stored value (0000 / FFFF included)",
+    "C17": "public-key validation is against the curve of the key's generator whatever curve the point object carries (point stub with a different curve); loaders' hand-over contracts; genuine point objects of other same-size curves",
+    "C19": "VerifyingKey.from_string / from_public_point hand-over contracts; private scalars written without leading zero bytes (SEC1/PKCS#8, DER/PEM) on all 17 curves in every tier",
+    "C20": "threading.RLock fields are modelled with an owner variable (release by a non-owner is an error); for owned locks the invariant template does not apply and the proof falls back to the search for a reachable bad state",
+}
+
 NA_DEFAULT = "check not built yet (construction in progress, see DESIGN.md section 14)"
 NA = {}
 
@@ -229,6 +244,8 @@ def main():
         if p not in CLAIMS:
             continue
         cat, text, ref, note, tech = CLAIMS[p]
+        if p in ADDED7:
+            text = text + " ; ADDED: " + ADDED7[p]
         checks.append(dict(
             property_id=p,
             quick_cmd="./check %s --tier quick" % p,
